@@ -235,6 +235,15 @@ def r5_limits(run, F):
     cons2 = [hirq.short(p) for p, _ in hirq.constructs(b2["hir"])]
     run.ob("R5-E103", "delta::lexer::lex_source_into_tokens|TooManyTokens", "Error::TooManyTokens" in cons2, F.where(b2),
            "TokenAllocError must be reported as LexingError::TooManyTokens")
+    # the payload vector is the one buffer with a *soft* capacity (max(len / 64, 1024), it grows): its E103 bound is the constant
+    # MAX_NUM_PAYLOADS, not the vector's capacity -- bounded by the capacity, a well-formed module with 1024 literals is rejected
+    pp = F.body(LT + "TokensBuffer::push_integer_payload")
+    pcfg = mirq.CFG(pp)
+    pg = [g for g in mirq.guards(pcfg) if g["op"] in ("Gt", "Ge", "Lt", "Le", "Eq")]
+    by_const = [g for g in pg if any(k == "const" and (x == mnp or str(x).endswith("MAX_NUM_PAYLOADS")) for side in ("a", "b") for k, x in g[side])]
+    by_cap = [g for g in pg if any(k == "call" and str(x).endswith("capacity") for side in ("a", "b") for k, x in g[side])]
+    run.ob("R5-E103", "push_integer_payload|bounded by MAX_NUM_PAYLOADS", len(by_const) >= 1 and not by_cap, F.where(pp),
+           "the number of payloads is compared with MAX_NUM_PAYLOADS (%d comparison(s)) and not with the capacity of the growable payload vector (%d)" % (len(by_const), len(by_cap)))
     # codes of those two
     code = F.body("alpha::lexer::Error::code") if F.has_body("alpha::lexer::Error::code") else None
     if code is not None:
